@@ -38,6 +38,9 @@ USES = {
 
 def related(seed):
     own = seed.split('-')[0]
+    if own == 'X':          # a cross-cutting benign change: every property its meta.json says it touches
+        meta = json.load(open(os.path.join(ROOT, KIND, seed, 'meta.json')))
+        return sorted(p for p in meta.get('touches', []) if re.fullmatch(r'C\d\d', p))
     props = set()
     for ln in open(os.path.join(ROOT, KIND, seed, 'patch.diff')):
         if ln.startswith('+++ b/'):
@@ -73,13 +76,14 @@ def one(job):
 
 def main():
     seeds = sorted(d for d in os.listdir(os.path.join(ROOT, KIND))
-                   if re.fullmatch(r'C\d\d-\d+', d) and os.path.exists(os.path.join(ROOT, KIND, d, 'patch.diff')))
+                   if re.fullmatch(r'(C\d\d|X)-\d+', d) and os.path.exists(os.path.join(ROOT, KIND, d, 'patch.diff')))
     if only:
         seeds = [s for s in seeds if s in only or s.split('-')[0] in only]
     path = os.path.join(ROOT, KIND, 'MATRIX.json')
     matrix = json.load(open(path)) if os.path.exists(path) else {}
     bad = 0
-    work = [(s_, p_) for s_ in seeds for p_ in related(s_)] if CROSS else [(s_, s_.split('-')[0]) for s_ in seeds]
+    work = [(s_, p_) for s_ in seeds for p_ in related(s_)] if CROSS else \
+        [(s_, p_) for s_ in seeds for p_ in ([s_.split('-')[0]] if s_[0] == 'C' else related(s_))]
     with concurrent.futures.ThreadPoolExecutor(jobs) as ex:
         for (seed, prop), out in ex.map(one, work):
             meta = json.load(open(os.path.join(ROOT, KIND, seed, 'meta.json')))
